@@ -190,6 +190,42 @@ contract(C + "read_toml_config", props=P, params={"path": "str"}, result="dict",
                   "not has_key(result, 'tags')",
                   "a-new-dictionary": "is_fresh(result)"})
 
+# -- ini reader: the same key discipline, list-valued options keep the order of their lines --------------------------------
+from pyvc.contracts import virtual_class
+virtual_class("IniParser", bases=[], members=[])
+shape("IniParser", optionxform="any")
+oracle("ini_get", ["ref", "val"], "val:str")          # config.get("behave", dest)
+oracle("ini_lines", ["val"], "val")                    # text.splitlines() as a list
+contract("new:ConfigParser", trusted=True, pos_params=[], fresh_result="IniParser", doc="configparser.ConfigParser() (A-lib)")
+contract("abs:IniParser.read", trusted=True, params={"self": "ref:IniParser"}, pos_params=["self", "path"], pure=True,
+         doc="config.read(path): loads the file (A-lib; the content is what ini_get / has_section / items return)")
+contract("abs:IniParser.get", trusted=True, params={"self": "ref:IniParser"}, pos_params=["self", "section", "option"], kwarg="kw",
+         pure=True, result="str", ensures={"value": "result == ini_get(self, option)"}, doc="config.get('behave', option) (A-lib)")
+contract("abs:IniParser.getboolean", trusted=True, params={"self": "ref:IniParser"}, pos_params=["self", "section", "option"],
+         pure=True, result="bool", doc="config.getboolean (A-lib)")
+contract("abs:IniParser.has_section", trusted=True, params={"self": "ref:IniParser"}, pos_params=["self", "section"],
+         pure=True, result="bool", doc="config.has_section (A-lib)")
+contract("abs:IniParser.items", trusted=True, params={"self": "ref:IniParser"}, pos_params=["self", "section"],
+         fresh_result="dict", doc="config.items(section) (A-lib; modelled as a dictionary of the section)")
+contract("abs:str.splitlines", trusted=True, pos_params=["self"], pure=True, result="seq:str",
+         ensures={"value": "result is ini_lines(self)"}, doc="text.splitlines(): a function of the text (A-lib)")
+contract(C + "read_configparser", props=P, params={"path": "str"}, result="dict",
+         callsites={"ConfigParser": "new:ConfigParser", "config.read": "abs:IniParser.read", "config.get": "abs:IniParser.get",
+                    "config.getboolean": "abs:IniParser.getboolean", "config.has_section": "abs:IniParser.has_section",
+                    "config.items": "abs:IniParser.items", "config.get('behave', dest).splitlines": "abs:str.splitlines",
+                    "configfile_options_iter": "abs:configfile_options_iter", "format_outfiles_coupling": "abs:format_outfiles_coupling",
+                    "os.path.dirname": "lib:os.path.dirname", "value_type": "user:convert"},
+         locals={"dest": "str", "action": "str", "section_name": "str", "data_name": "str"},
+         exprs={"this_config[data_name].update(config.items(section_name))": ("const", None)},
+         modifies=["lists", "dicts"],
+         raises=[Raises("ValueError", when=None, label="conversion-or-unknown-action")],
+         loops=[Loop(invariant={"file-tags-are-kept-apart-from-command-line-tags": "not has_key(this_config, 'tags')",
+                                "a-private-result": "is_fresh(this_config)"}, modifies=["dict(this_config)", "alloc"]),
+                Loop(invariant={"file-tags-are-kept-apart-from-command-line-tags": "not has_key(this_config, 'tags')",
+                                "a-private-result": "is_fresh(this_config)"}, modifies=["dict(this_config)", "alloc"])],
+         ensures={"file-tags-are-stored-as-config_tags-never-as-tags": "not has_key(result, 'tags')",
+                  "a-new-dictionary": "is_fresh(result)"})
+
 prop("C20", level="other", bounded=[],
      explanation="proved: -D definitions are parsed as padding-stripped text, bare name = true, name = stripped text before the "
                  "first '=' of the unquoted definition, value = padding stripped first and then its quote pair (unqote removes "
@@ -199,8 +235,8 @@ prop("C20", level="other", bounded=[],
                  "configuration file are resolved against that file's directory, in order, whether or not a format option is "
                  "present; UserData.getas returns the default only for a missing name, keeps a present value of the wanted type "
                  "and converts any other present value (also a falsy one), raising ValueError iff that conversion fails; "
-                 "read_toml_config never stores file tags under 'tags' (they go to config_tags, so --tags on the command line "
-                 "wins) and returns a new dictionary. Bounded: the option table itself (every option x {absent, file, command "
+                 "read_configparser and read_toml_config never store file tags under 'tags' (they go to config_tags, so --tags "
+                 "on the command line wins) and return a new dictionary. Bounded: the option table itself (every option x {absent, file, command "
                  "line, both}), configparser / argparse, the values read_toml_config stores, format/outfiles coupling",
      technique="contract-based deductive verification (own VC generator over the real ASTs, z3/cvc5) of the deciding helper "
                "functions; bounded run-time contract stand-in for the option table",
